@@ -252,6 +252,29 @@ fn one_case(ctx: &mut Ctx, idx: usize, w: &World, w2: &World) {
             }
         }
     }
+    // ---- aliasing inside the proof: digit proof b shows a byte-copy of the blinded signature of digit proof a (fixed
+    // before the challenge is derived; everything else honest).  Digit b's pairing equation then fails; a verifier that
+    // identifies a digit proof by its signature, caches or de-duplicates would skip it
+    {
+        let n_alias = if ctx.thorough() { 12 } else { 3 };
+        for t in 0..n_alias {
+            let f = PayForge::honest(ctx, &old, &new, tok, ncb, nmb);
+            let (a, mut b) = (ctx.prng.gen_range(0..18usize), ctx.prng.gen_range(0..18usize));
+            if t == 0 { b = 8; } // the most significant customer digit copies another one
+            if a == b { b = (a + 1) % 18; }
+            let tweak = |d: &mut PayD| {
+                let (s1, s2) = { let p = if a < 9 { &d.cbr[a] } else { &d.mbr[a - 9] }; (p.s1, p.s2) };
+                let p = if b < 9 { &mut d.cbr[b] } else { &mut d.mbr[b - 9] };
+                p.s1 = s1; p.s2 = s2;
+            };
+            let mut draft = match f.atoms(ctx, w, &Scalar::zero()) { Some(d) => d, None => return };
+            tweak(&mut draft);
+            let c1 = match allow_check(ctx, w, &old[1], amount, &s.a.ctx_bytes, &draft, None, "draft") { Some(o) => o.challenge, None => return };
+            let mut d = match f.atoms(ctx, w, &c1) { Some(d) => d, None => return };
+            tweak(&mut d);
+            let _ = allow_check(ctx, w, &old[1], amount, &s.a.ctx_bytes, &d, Some(false), "digit-signature-copied-from-another-digit");
+        }
+    }
     let rels: Vec<&str> = vec!["all-relations-hold", "state-channel-id", "close-state-channel-id", "close-tag", "old-revocation-lock", "new-revocation-locks-differ",
         "claimed-nonce", "customer-balance-state-vs-close", "merchant-balance-state-vs-close", "customer-balance-update", "merchant-balance-update",
         "customer-range-link", "merchant-range-link", "customer-digit-signature", "token-tampered", "token-other-message", "customer-balance-negative", "merchant-balance-too-large", "customer-balance-too-large", "merchant-balance-negative",
@@ -422,14 +445,14 @@ fn sweep_case(ctx: &mut Ctx, idx: usize, w: &World) {
     let mut p = 0usize;
     for i in 0..32 {
         for j in i + 1..32 {
-            for sign in 0..2 {
+            for wgt in deviation_weights() {
                 p += 1;
                 if p % ctx.nshards != ctx.shard { continue; }
                 if !ctx.thorough() && (p / ctx.nshards) % 4 != quarter { continue; }
                 let mut f = PayForge::honest(ctx, &old, &new, tok, ncb, nmb);
                 let d = Scalar::from(1 + ctx.prng.gen_range(0..1000u64));
                 coord(&mut f, i, d);
-                coord(&mut f, j, if sign == 0 { d } else { -d });
+                coord(&mut f, j, wgt * d);
                 let draft = match f.atoms(ctx, w, &Scalar::zero()) { Some(d) => d, None => return };
                 let c1 = match allow_check(ctx, w, &old[1], amount, &a.ctx_bytes, &draft, None, "draft") { Some(o) => o.challenge, None => return };
                 let dd = match f.atoms(ctx, w, &c1) { Some(d) => d, None => return };
